@@ -7,7 +7,7 @@ import capture
 from astcodec import enc, parse_expr
 
 ID = "C05"
-THEOREMS = ["hideRename_avoids", "hideLoop_avoids", "hideLoop_new_not_taken", "freshLocal_fresh", "resolveCalled_frame", "uninlinable_left", "resolveCalled_frame_both"]
+THEOREMS = ["resolveCalled_preserves", "resolveCalled_refines", "resolveCalled_sem_both", "inl_of_inlB", "hideRename_avoids", "hideLoop_avoids", "hideLoop_new_not_taken", "freshLocal_fresh", "resolveCalled_frame", "uninlinable_left", "resolveCalled_frame_both"]
 RULE = (
     "generated modules (harness/capture.py) with one-line helpers (def and lambda): identity body, arithmetic, "
     "helper calling helpers, helper containing a nested lambda re-using its parameter name, helper taking a "
@@ -17,13 +17,22 @@ RULE = (
     "helper call; distinct = distinct lambda body"
 )
 EXPLANATION = (
+    "Semantic theorem resolveCalled_refines / resolveCalled_preserves (Props/C05Sem.lean; induction over the expression with the "
+    "refinement transfer principles of Lemmas/RefineCall.lean): for every expression in the domain Inl (no comprehension; every "
+    "immediately called lambda binds positionally, so it is inlined; every other lambda has one parameter; no lambda parameter "
+    "is used as a function name), every well-behaved world and well-formed environment: whenever the expression evaluates "
+    "(deferred execution), what _resolve_called_lambdas returns evaluates to a refinement of that value - to the same value when "
+    "it has no deferred failure. The renaming of locals that an argument mentions is inside the theorem (it is what makes the "
+    "substitution capture free), as are nested calls, shadowing parameters and arguments that are themselves inlined calls. The "
+    "executable form inlB of the domain is evaluated on what the inliner is given for every generated case (evidence: inside / "
+    "outside the domain). "
     "Theorems: hideRename_avoids / hideLoop_avoids (capture avoidance of the inliner: after _visit_hiding no lambda parameter or "
     "comprehension variable inside a body being inlined is a name that an argument being substituted mentions - such locals "
     "are renamed), hideLoop_new_not_taken + freshLocal_fresh (the new name x_i is not a name of any argument, of the other "
     "locals or of the body: found among the first n+1 candidates by pigeonhole), resolveCalled_frame (nothing to inline => "
     "unchanged, under any hiding), uninlinable_left; worked instances (bare-parameter body, shadowing nested lambda, helper "
-    "calling helper) by rfl. PARTIAL: no theorem yet that the inlined expression evaluates like the call (it would need the "
-    "substitution lemma for the strict semantics under these freshness facts); the remaining direction of capture (a "
+    "calling helper) by rfl. PARTIAL: outside Inl (comprehensions, keyword-called lambdas that stay calls, two-parameter "
+    "operator lambdas) only the correspondence and the oracle apply; the remaining direction of capture (a "
     "call-site binder named like a free name of an inserted helper body) is an open finding. Correspondence: "
     "_resolve_called_lambdas / parse_as_ast vs compiled Lean resolveCalled / parseCallable, including the renaming (same new "
     "names). Oracle: CPython calling the real helper vs the recorded lambda on generated events; dedicated witnesses of the "
